@@ -87,6 +87,16 @@ void Precedence::bvisit(const RealDouble &x)
     }
 }
 
+void Precedence::bvisit(const Infty &x)
+{
+    // "-oo" starts with a unary minus, like a negative Integer
+    if (x.is_negative_infinity()) {
+        precedence = PrecedenceEnum::Mul;
+    } else {
+        precedence = PrecedenceEnum::Atom;
+    }
+}
+
 #ifdef HAVE_SYMENGINE_PIRANHA
 void Precedence::bvisit(const URatPSeriesPiranha &x)
 {
